@@ -185,6 +185,11 @@ func (w *sweep) doInject(i int, what string) {
 		w.waitTorn(i)
 		w.log(fmt.Sprintf("inject %d", i))
 	case "busy":
+		if c.nc != nil && !c.nc.IsActive() { // already closed: the data cannot reach a handler
+			c.cli.Write([]byte("x"))
+			w.log(fmt.Sprintf("nobusy %d", i))
+			return
+		}
 		c.busy = true
 		c.cli.Write([]byte("x"))
 		if c.nc != nil {
@@ -314,6 +319,7 @@ func (w *sweep) acceptOne(i int) {
 	if !c.started {
 		w.problems = append(w.problems, "accept never happened")
 	}
+	w.log(fmt.Sprintf("ret %d", i))
 	w.cur = prev
 	w.muHeld = false
 }
@@ -400,9 +406,9 @@ func (w *sweep) scenario(id int, kind, fn string, k int) {
 	// release handlers, let everything finish
 	for i, c := range w.conns {
 		if c.busy {
+			w.log(fmt.Sprintf("idle %d", i)) // observed before the handler is released
 			c.busy = false
 			close(c.release)
-			w.log(fmt.Sprintf("idle %d", i))
 		}
 	}
 	time.Sleep(2 * time.Millisecond)
